@@ -1,6 +1,9 @@
-"""Apply a seeded change to /repo, run the given checks, undo it.  Usage:
-   python harness/mutest.py <patch.diff> C01 [C03 ...] [--tier quick]
-Prints one line per check: exit code and the VIOLATION lines.  /repo is restored even on error."""
+"""Run checks against a seeded change WITHOUT touching /repo: the change is applied in a scratch
+worktree and the checks are pointed at it with REDRESS_REPO.  Usage:
+   python harness/mutest.py <worktree> <patch.diff> C01 [C03 ...] [--tier quick] [--demo demo.py]
+Prints: test-suite summary with the change, demo exit codes with/without the change, and for each
+check its exit code and VIOLATION lines.  The worktree is restored afterwards."""
+import os
 import subprocess
 import sys
 from pathlib import Path
@@ -8,33 +11,47 @@ from pathlib import Path
 ROOT = Path(__file__).resolve().parent.parent
 
 
+def sh(cmd, cwd=None, env=None, timeout=3000):
+    return subprocess.run(cmd, cwd=cwd, env=env, capture_output=True, text=True, timeout=timeout)
+
+
 def main() -> int:
     args = sys.argv[1:]
-    tier = "quick"
-    if "--tier" in args:
-        i = args.index("--tier")
-        tier = args[i + 1]
-        del args[i:i + 2]
-    patch, props = args[0], args[1:]
-    st = subprocess.run(["git", "-C", "/repo", "status", "--porcelain"], capture_output=True, text=True).stdout
-    if st.strip():
-        print("refusing: /repo is not clean:\n" + st)
-        return 2
-    ap = subprocess.run(["git", "-C", "/repo", "apply", patch], capture_output=True, text=True)
+    tier, demo = "quick", None
+    for flag in ("--tier", "--demo"):
+        if flag in args:
+            i = args.index(flag)
+            if flag == "--tier":
+                tier = args[i + 1]
+            else:
+                demo = args[i + 1]
+            del args[i:i + 2]
+    wt, patch, props = args[0], args[1], args[2:]
+    env = dict(os.environ, REDRESS_REPO=wt, PYTHONPATH=f"{wt}/src", VERIF_EVIDENCE_DIR="/tmp/mutest_evidence")
+    sh(["git", "-C", wt, "checkout", "--", "."])
+    if demo:
+        r = sh(["/venv/bin/python", demo], cwd=wt, env=env)
+        print(f"demo without change: exit={r.returncode}")
+    ap = sh(["git", "-C", wt, "apply", patch])
     if ap.returncode != 0:
         print("patch does not apply:", ap.stderr)
         return 2
     try:
+        t = sh(["/venv/bin/python", "-m", "pytest", "-q", "-p", "no:cacheprovider", "-x"], cwd=wt, env=env)
+        print("suite with change:", [ln for ln in t.stdout.splitlines() if " passed" in ln or " failed" in ln][-1:])
+        if demo:
+            r = sh(["/venv/bin/python", demo], cwd=wt, env=env)
+            print(f"demo with change: exit={r.returncode}")
         for p in props:
-            r = subprocess.run([str(ROOT / "check"), p, "--tier", tier], cwd=ROOT, capture_output=True, text=True)
+            r = sh([str(ROOT / "check"), p, "--tier", tier], cwd=ROOT, env=env)
             lines = [ln for ln in r.stdout.splitlines() if ln.startswith(("VIOLATION", "KNOWN", "[check"))]
             print(f"{p}: exit={r.returncode}")
-            for ln in lines[:6]:
-                print("   ", ln[:220])
+            for ln in lines[:4]:
+                print("   ", ln[:200])
+            if r.returncode not in (0, 1):
+                print(r.stdout[-800:], r.stderr[-800:])
     finally:
-        subprocess.run(["git", "-C", "/repo", "checkout", "--", "."], check=True)
-        # evidence files were rewritten by the mutated runs: restore the committed ones
-        subprocess.run(["git", "-C", str(ROOT), "checkout", "--", "evidence"], capture_output=True)
+        sh(["git", "-C", wt, "checkout", "--", "."])
     return 0
 
 
